@@ -98,7 +98,7 @@ class C03:
                 extra.append({"p": LAYER + [b(root)], "k": "d", "m": 0o755})
                 used = set()
                 for _ in range(rng.randint(0, 3)):
-                    var, sx = rng.choice(NAMES_ENV), rng.choice(SUFFIXES + [b"", b".unknown", b".APPEND"])
+                    var, sx = rng.choice(NAMES_ENV), rng.choice(SUFFIXES + [b"", b".unknown", b".APPEND", b".\xfe"])
                     nm = var + sx
                     # FOO and FOO.override are one (behaviour, name): which one a read returns depends on the
                     # order of fs::read_dir, which the property does not fix (assumption 2) -- never both
@@ -137,7 +137,7 @@ class C03:
                     used = set()
                     for _ in range(rng.randint(0, 4)):
                         var = rng.choice(NAMES_ENV[:8])
-                        sx = rng.choice(SUFFIXES + [b"", b".unknown", b".Override", b".default.bak"])
+                        sx = rng.choice(SUFFIXES + [b"", b".unknown", b".Override", b".default.bak", b".\xff", b".\xc3\x28", b".", b".append\xff"])
                         key = self.entry_key(var + sx)
                         if key in used:
                             continue
